@@ -212,6 +212,41 @@ func runKernel(sk, dk Kind, xs []uint64) []uint64 {
 	return out
 }
 
+// runKernelShaped is runKernel through ch-channel buffers whose last frame is partial when len(xs) is
+// not a multiple of ch (the trailing samples are appended one by one).
+func runKernelShaped(sk, dk Kind, xs []uint64, ch int) []uint64 {
+	n := len(xs)
+	frames, rem := n/ch, n%ch
+	src := Alloc(sk, false, signal.Allocator{Channels: ch, Length: frames, Capacity: frames + 1})
+	dst := Alloc(dk, false, signal.Allocator{Channels: ch, Length: frames, Capacity: frames + 1})
+	for i := 0; i < frames*ch; i++ {
+		src.SetSample(i, xs[i])
+	}
+	for i := 0; i < rem; i++ {
+		src.AppendSample(xs[frames*ch+i])
+		dst.AppendSample(0)
+	}
+	convCall(sk, dk)(src, dst)
+	out := make([]uint64, n)
+	for i := range out {
+		out[i] = dst.Sample(i)
+	}
+	return out
+}
+
+func (g *Kern) emitKShaped(sk, dk Kind, xs []uint64, ch int) {
+	ys := runKernelShaped(sk, dk, xs, ch)
+	fn := convName(sk, dk)
+	fmt.Fprintf(g.out, "kseq %s %s %s\n", fn, sk, dk)
+	for i, x := range xs {
+		fmt.Fprintf(g.out, "k %s %s\n", cellString(x, sk), cellString(ys[i], dk))
+	}
+	g.st.lines += len(xs) + 1
+	g.st.Pairs[fn+":"+sk.String()+">"+dk.String()] += len(xs)
+	g.st.Shapes[fmt.Sprintf("kernel-ch%d-rem%d", ch, len(xs)%ch)]++
+	g.st.cases++
+}
+
 type Kern struct {
 	out *bufio.Writer
 	st  *Stats
@@ -348,7 +383,13 @@ func (g *Kern) emitKPos(sk, dk Kind, specials []uint64) {
 			for i := range xs {
 				xs[i] = specials[(i+rot*3)%len(specials)]
 			}
-			g.emitK(sk, dk, xs)
+			// one channel, and several channels with a partial last frame
+			ch := 1 + (L+rot)%4
+			if ch == 1 {
+				g.emitK(sk, dk, xs)
+			} else {
+				g.emitKShaped(sk, dk, xs, ch)
+			}
 		}
 	}
 	// long buffers (table-driven fast paths usually have a length threshold)
